@@ -154,7 +154,10 @@ func NewSRPClient(user, pin string, rnd func([]byte)) *SRPClient {
 	return c
 }
 
-var ErrRedraw = errors.New("srp: leading zero byte in B or S, redraw")
+var ErrRedraw = errors.New("srp: leading zero byte in S, redraw")
+
+// ErrRedrawB: the accessory's B has a leading zero byte; B is fixed per connection, so only a new connection helps.
+var ErrRedrawB = errors.New("srp: leading zero byte in B, redraw on a new connection")
 
 // Compute derives S, K and M1 from the accessory's salt and B. ErrRedraw asks for a fresh exchange.
 func (c *SRPClient) Compute(salt, B []byte) error {
@@ -163,7 +166,7 @@ func (c *SRPClient) Compute(salt, B []byte) error {
 		return errors.New("srp: B mod N = 0")
 	}
 	if len(B) != 384 || B[0] == 0 {
-		return ErrRedraw
+		return ErrRedrawB
 	}
 	c.Bbytes = B
 	k := new(big.Int).SetBytes(h512(srpN.Bytes(), pad384(srpG)))
